@@ -47,6 +47,30 @@ func main() {
 
 var extraCmds = map[string]func([]string){}
 
+// eachBehaviour streams one JSON behaviour per line.
+func eachBehaviour(path string, fn func(i int, b run.M)) int {
+	f, err := os.Open(path)
+	if err != nil {
+		die("%v", err)
+	}
+	defer f.Close()
+	sc := bufio.NewScanner(f)
+	sc.Buffer(make([]byte, 1<<20), 1<<28)
+	i := 0
+	for sc.Scan() {
+		if len(sc.Bytes()) == 0 {
+			continue
+		}
+		var m run.M
+		if err := json.Unmarshal(sc.Bytes(), &m); err != nil {
+			die("bad behaviour line: %v", err)
+		}
+		fn(i, m)
+		i++
+	}
+	return i
+}
+
 // readBehaviours reads one JSON behaviour per line.
 func readBehaviours(path string) []run.M {
 	f, err := os.Open(path)
@@ -128,16 +152,15 @@ func cmdPlay(args []string) {
 			run.SymLimits = append(run.SymLimits, n)
 		}
 	}
-	behs := readBehaviours(*in)
 	tw := newTraceWriter(*out)
 	var pf *os.File
 	if *progress != "" {
 		pf, _ = os.Create(*progress)
 	}
 	n := 0
-	for i, b := range behs {
+	eachBehaviour(*in, func(i int, b run.M) {
 		if *only >= 0 && i != *only {
-			continue
+			return
 		}
 		if pf != nil {
 			pf.Seek(0, 0)
@@ -150,7 +173,7 @@ func cmdPlay(args []string) {
 		}
 		tw.writeExec(evs, i)
 		n++
-	}
+	})
 	tw.close()
 	fmt.Printf("played %d behaviours, %d trace lines\n", n, tw.lines)
 }
